@@ -5,9 +5,9 @@ package world
 
 import "time"
 
-// User implements every optional user interface of the library (like mocks.User) with a
-// separate PID field.
-type User struct {
+// UserBase implements every optional user interface of the library (like mocks.User, with a
+// separate PID field) except totp2fa.UserOneTime.
+type UserBase struct {
 	PID      string
 	Email    string
 	Password string
@@ -32,64 +32,60 @@ type User struct {
 
 	OTPs           string
 	TOTPSecretKey  string
-	TOTPLastCode   string
 	SMSPhoneNumber string
 	RecoveryCodes  string
 
 	Arbitrary map[string]string
 }
 
-func (u *User) GetPID() string                  { return u.PID }
-func (u *User) GetEmail() string                { return u.Email }
-func (u *User) GetPassword() string             { return u.Password }
-func (u *User) GetRecoverSelector() string      { return u.RecoverSelector }
-func (u *User) GetRecoverVerifier() string      { return u.RecoverVerifier }
-func (u *User) GetRecoverExpiry() time.Time     { return u.RecoverTokenExpiry }
-func (u *User) GetConfirmSelector() string      { return u.ConfirmSelector }
-func (u *User) GetConfirmVerifier() string      { return u.ConfirmVerifier }
-func (u *User) GetConfirmed() bool              { return u.Confirmed }
-func (u *User) GetAttemptCount() int            { return u.AttemptCount }
-func (u *User) GetLastAttempt() time.Time       { return u.LastAttempt }
-func (u *User) GetLocked() time.Time            { return u.Locked }
-func (u *User) IsOAuth2User() bool              { return len(u.OAuth2Provider) != 0 }
-func (u *User) GetOAuth2UID() string            { return u.OAuth2UID }
-func (u *User) GetOAuth2Provider() string       { return u.OAuth2Provider }
-func (u *User) GetOAuth2AccessToken() string    { return u.OAuth2Token }
-func (u *User) GetOAuth2RefreshToken() string   { return u.OAuth2Refresh }
-func (u *User) GetOAuth2Expiry() time.Time      { return u.OAuth2Expiry }
-func (u *User) GetArbitrary() map[string]string { return u.Arbitrary }
-func (u *User) GetOTPs() string                 { return u.OTPs }
-func (u *User) GetTOTPSecretKey() string        { return u.TOTPSecretKey }
-func (u *User) GetTOTPLastCode() string         { return u.TOTPLastCode }
-func (u *User) GetSMSPhoneNumber() string       { return u.SMSPhoneNumber }
-func (u *User) GetRecoveryCodes() string        { return u.RecoveryCodes }
+func (u *UserBase) GetPID() string                  { return u.PID }
+func (u *UserBase) GetEmail() string                { return u.Email }
+func (u *UserBase) GetPassword() string             { return u.Password }
+func (u *UserBase) GetRecoverSelector() string      { return u.RecoverSelector }
+func (u *UserBase) GetRecoverVerifier() string      { return u.RecoverVerifier }
+func (u *UserBase) GetRecoverExpiry() time.Time     { return u.RecoverTokenExpiry }
+func (u *UserBase) GetConfirmSelector() string      { return u.ConfirmSelector }
+func (u *UserBase) GetConfirmVerifier() string      { return u.ConfirmVerifier }
+func (u *UserBase) GetConfirmed() bool              { return u.Confirmed }
+func (u *UserBase) GetAttemptCount() int            { return u.AttemptCount }
+func (u *UserBase) GetLastAttempt() time.Time       { return u.LastAttempt }
+func (u *UserBase) GetLocked() time.Time            { return u.Locked }
+func (u *UserBase) IsOAuth2User() bool              { return len(u.OAuth2Provider) != 0 }
+func (u *UserBase) GetOAuth2UID() string            { return u.OAuth2UID }
+func (u *UserBase) GetOAuth2Provider() string       { return u.OAuth2Provider }
+func (u *UserBase) GetOAuth2AccessToken() string    { return u.OAuth2Token }
+func (u *UserBase) GetOAuth2RefreshToken() string   { return u.OAuth2Refresh }
+func (u *UserBase) GetOAuth2Expiry() time.Time      { return u.OAuth2Expiry }
+func (u *UserBase) GetArbitrary() map[string]string { return u.Arbitrary }
+func (u *UserBase) GetOTPs() string                 { return u.OTPs }
+func (u *UserBase) GetTOTPSecretKey() string        { return u.TOTPSecretKey }
+func (u *UserBase) GetSMSPhoneNumber() string       { return u.SMSPhoneNumber }
+func (u *UserBase) GetRecoveryCodes() string        { return u.RecoveryCodes }
 
-func (u *User) PutPID(pid string)                  { u.PID = pid }
-func (u *User) PutEmail(email string)              { u.Email = email }
-func (u *User) PutPassword(password string)        { u.Password = password }
-func (u *User) PutRecoverSelector(s string)        { u.RecoverSelector = s }
-func (u *User) PutRecoverVerifier(s string)        { u.RecoverVerifier = s }
-func (u *User) PutRecoverExpiry(t time.Time)       { u.RecoverTokenExpiry = t }
-func (u *User) PutConfirmSelector(s string)        { u.ConfirmSelector = s }
-func (u *User) PutConfirmVerifier(s string)        { u.ConfirmVerifier = s }
-func (u *User) PutConfirmed(c bool)                { u.Confirmed = c }
-func (u *User) PutAttemptCount(n int)              { u.AttemptCount = n }
-func (u *User) PutLastAttempt(t time.Time)         { u.LastAttempt = t }
-func (u *User) PutLocked(t time.Time)              { u.Locked = t }
-func (u *User) PutOAuth2UID(uid string)            { u.OAuth2UID = uid }
-func (u *User) PutOAuth2Provider(p string)         { u.OAuth2Provider = p }
-func (u *User) PutOAuth2AccessToken(t string)      { u.OAuth2Token = t }
-func (u *User) PutOAuth2RefreshToken(t string)     { u.OAuth2Refresh = t }
-func (u *User) PutOAuth2Expiry(t time.Time)        { u.OAuth2Expiry = t }
-func (u *User) PutArbitrary(arb map[string]string) { u.Arbitrary = arb }
-func (u *User) PutOTPs(otps string)                { u.OTPs = otps }
-func (u *User) PutTOTPSecretKey(key string)        { u.TOTPSecretKey = key }
-func (u *User) PutTOTPLastCode(code string)        { u.TOTPLastCode = code }
-func (u *User) PutSMSPhoneNumber(number string)    { u.SMSPhoneNumber = number }
-func (u *User) PutRecoveryCodes(codes string)      { u.RecoveryCodes = codes }
+func (u *UserBase) PutPID(pid string)                  { u.PID = pid }
+func (u *UserBase) PutEmail(email string)              { u.Email = email }
+func (u *UserBase) PutPassword(password string)        { u.Password = password }
+func (u *UserBase) PutRecoverSelector(s string)        { u.RecoverSelector = s }
+func (u *UserBase) PutRecoverVerifier(s string)        { u.RecoverVerifier = s }
+func (u *UserBase) PutRecoverExpiry(t time.Time)       { u.RecoverTokenExpiry = t }
+func (u *UserBase) PutConfirmSelector(s string)        { u.ConfirmSelector = s }
+func (u *UserBase) PutConfirmVerifier(s string)        { u.ConfirmVerifier = s }
+func (u *UserBase) PutConfirmed(c bool)                { u.Confirmed = c }
+func (u *UserBase) PutAttemptCount(n int)              { u.AttemptCount = n }
+func (u *UserBase) PutLastAttempt(t time.Time)         { u.LastAttempt = t }
+func (u *UserBase) PutLocked(t time.Time)              { u.Locked = t }
+func (u *UserBase) PutOAuth2UID(uid string)            { u.OAuth2UID = uid }
+func (u *UserBase) PutOAuth2Provider(p string)         { u.OAuth2Provider = p }
+func (u *UserBase) PutOAuth2AccessToken(t string)      { u.OAuth2Token = t }
+func (u *UserBase) PutOAuth2RefreshToken(t string)     { u.OAuth2Refresh = t }
+func (u *UserBase) PutOAuth2Expiry(t time.Time)        { u.OAuth2Expiry = t }
+func (u *UserBase) PutArbitrary(arb map[string]string) { u.Arbitrary = arb }
+func (u *UserBase) PutOTPs(otps string)                { u.OTPs = otps }
+func (u *UserBase) PutTOTPSecretKey(key string)        { u.TOTPSecretKey = key }
+func (u *UserBase) PutSMSPhoneNumber(number string)    { u.SMSPhoneNumber = number }
+func (u *UserBase) PutRecoveryCodes(codes string)      { u.RecoveryCodes = codes }
 
-// Clone returns a copy (database semantics: Load hands out copies, Save copies back).
-func (u *User) Clone() *User {
+func (u *UserBase) cloneBase() UserBase {
 	c := *u
 	if u.Arbitrary != nil {
 		c.Arbitrary = map[string]string{}
@@ -97,12 +93,37 @@ func (u *User) Clone() *User {
 			c.Arbitrary[k] = v
 		}
 	}
-	return &c
+	return c
 }
 
-// UserNoTOTPOnce is a user type that does NOT implement totp2fa.UserOneTime (no replay guard)
-// — it hides the last-code methods by embedding and shadowing.
-type UserPlain struct{ *User }
+// B gives harnesses access to the fields.
+func (u *UserBase) B() *UserBase { return u }
 
-// GetTOTPLastCode is deliberately absent on UserPlain: shadow with a differently-typed field.
-// (Go has no method removal; UserPlain simply is not used where UserOneTime is required.)
+// Record is a stored user of either type.
+type Record interface {
+	GetPID() string
+	PutPID(string)
+	B() *UserBase
+	CloneR() Record
+}
+
+// User additionally implements totp2fa.UserOneTime (TOTP replay protection).
+type User struct {
+	UserBase
+	TOTPLastCode string
+}
+
+func (u *User) GetTOTPLastCode() string     { return u.TOTPLastCode }
+func (u *User) PutTOTPLastCode(code string) { u.TOTPLastCode = code }
+
+// Clone returns a copy (database semantics: Load hands out copies, Save copies back).
+func (u *User) Clone() *User   { return &User{UserBase: u.cloneBase(), TOTPLastCode: u.TOTPLastCode} }
+func (u *User) CloneR() Record { return u.Clone() }
+
+// PlainUser does not implement totp2fa.UserOneTime.
+type PlainUser struct{ UserBase }
+
+func (u *PlainUser) CloneR() Record { return &PlainUser{UserBase: u.cloneBase()} }
+
+// NewUser returns a User record with the given pid and e-mail.
+func NewUser(pid, email string) *User { return &User{UserBase: UserBase{PID: pid, Email: email}} }
